@@ -298,7 +298,7 @@ pub fn run_session(ctx: &mut Ctx, c: &SessCase) -> Result<(), String> {
             let before = s.log_len();
             let served_before = s.served.load(Ordering::SeqCst);
             let lent = make_lent(op);
-            let ids = lent.ids.clone();
+            let ids = lent.wire_ids();
             let (r, lent, hung) = s.call(op, lent);
             if hung {
                 return Err(format!("{desc}: the call did not return"));
